@@ -174,14 +174,35 @@ Definition file_step (st : disk * option stream) (l : list Z) : (disk * option s
   | _, _ => (st, [PRE])
   end.
 
-Fixpoint file_run_lines (st : disk * option stream) (ls : list (list Z)) : list (list Z) :=
+(* two File users side by side ([33] switches between them): File objects are independent of one another, the disk is
+   shared. One stream per file at a time (the model writes through, stdio buffers): an operation naming the file the
+   other user has open is not issued. *)
+Definition file_step2 (st : disk * option stream * option stream * bool) (l : list Z)
+  : (disk * option stream * option stream * bool) * list Z :=
+  let '(d, a, b, act) := st in
+  match l with
+  | [33] => ((d, a, b, negb act), [0])
+  | _ =>
+      let cur := if act then b else a in
+      let other := if act then a else b in
+      let conflict := match l, other with
+                      | 1 :: n :: _, Some o => s_name o =? n
+                      | 31 :: n :: _, Some o => s_name o =? n
+                      | _, _ => false
+                      end in
+      if conflict then (st, [PRE]) else
+      let '((d', cur'), out) := file_step (d, cur) l in
+      ((d', if act then a else cur', if act then cur' else b, act), out)
+  end.
+
+Fixpoint file_run_lines (st : disk * option stream * option stream * bool) (ls : list (list Z)) : list (list Z) :=
   match ls with
   | [] => []
-  | l :: rest => let '(st', out) := file_step st l in out :: file_run_lines st' rest
+  | l :: rest => let '(st', out) := file_step2 st l in out :: file_run_lines st' rest
   end.
 
 Definition file_run (case : list (list Z)) : list (list Z) :=
   match case with
-  | [_] :: ls => [] :: file_run_lines ([], None) ls
+  | [_] :: ls => [] :: file_run_lines ([], None, None, false) ls
   | _ => [[PRE]]
   end.
